@@ -2,9 +2,11 @@
 package main
 
 import (
-	"log/slog"
 	"io"
+	"log/slog"
 	"math"
+	"math/big"
+	"math/bits"
 	"time"
 
 	"example.com/scion-time/base/unixutil"
@@ -50,13 +52,84 @@ func ppmRoundtrip(x int64) {
 
 var nolog = slog.New(slog.NewTextHandler(io.Discard, nil))
 
-func drift(driftNs, d int64) {
-	c := clocks.NewSystemClock(nolog, time.Duration(driftNs))
+// inRange reports whether (driftNs, d) lies in the range the drift oracle speaks about:
+// positive drift, non-negative interval, true allowance driftNs*d/1e9 below 2^62 ns.
+// wraps reports whether in addition driftNs*d itself does not fit int64 (> 2^63-1 ns^2).
+func driftRange(driftNs, d int64) (inRange, wraps bool) {
+	if driftNs <= 0 || d < 0 {
+		return false, false
+	}
+	p := new(big.Int).Mul(big.NewInt(driftNs), big.NewInt(d))
+	lim := new(big.Int).Mul(new(big.Int).Lsh(big.NewInt(1), 62), big.NewInt(1000000000))
+	if p.Cmp(lim) >= 0 {
+		return false, false
+	}
+	return true, !p.IsInt64()
+}
+
+func driftTags(driftNs, d int64) string {
 	tags := ""
 	if driftNs != 0 {
 		tags = "nt"
 	}
-	w.Case("units.drift", tags, lib.V(lib.I(driftNs), lib.I(d)), lib.I(int64(c.Drift(time.Duration(d)))))
+	if in, wraps := driftRange(driftNs, d); in {
+		if tags != "" {
+			tags += ","
+		}
+		tags += "drift-oracle"
+		if wraps {
+			tags += ",drift-product-over-int64"
+		}
+	}
+	return tags
+}
+
+func drift(driftNs, d int64) {
+	c := clocks.NewSystemClock(nolog, time.Duration(driftNs))
+	w.Case("units.drift", driftTags(driftNs, d), lib.V(lib.I(driftNs), lib.I(d)), lib.I(int64(c.Drift(time.Duration(d)))))
+}
+
+// Drift(d1), Drift(d2), Drift(d1+d2) of one clock: monotone and additive
+func driftAdd(driftNs, d1, d2 int64) {
+	c := clocks.NewSystemClock(nolog, time.Duration(driftNs))
+	w.Case("units.drift_add", driftTags(driftNs, d1+d2), lib.V(lib.I(driftNs), lib.I(d1), lib.I(d2)),
+		lib.V(lib.I(int64(c.Drift(time.Duration(d1)))), lib.I(int64(c.Drift(time.Duration(d2)))), lib.I(int64(c.Drift(time.Duration(d1+d2))))))
+}
+
+// a realistic drift (ns per s) and an interval for which drift x interval exceeds 2^63 ns^2
+// while the true allowance drift x interval / 1e9 stays below 2^62 ns
+func genWrapPair(r *lib.Rng) (int64, int64) {
+	switch r.Intn(6) {
+	case 0:
+		return 500000, 6 * 3600 * 1000000000 // 500 us/s x 6 h
+	case 1:
+		return 50000, 60 * 3600 * 1000000000 // 50 us/s x 60 h
+	}
+	var dn int64
+	switch r.Intn(3) {
+	case 0:
+		dn = lib.Pick(r, int64(500000), 100000, 50000, 10000, 5000, 1000, 1000000, 250000)
+	case 1:
+		dn = r.Range(1000, 1000000)
+	default:
+		dn = r.Range(2, 4000000000)
+	}
+	lo := math.MaxInt64/dn + 1 // smallest d with dn*d > MaxInt64
+	hi := int64(math.MaxInt64)
+	lim := new(big.Int).Mul(new(big.Int).Lsh(big.NewInt(1), 62), big.NewInt(1000000000))
+	lim.Sub(lim, big.NewInt(1)).Div(lim, big.NewInt(dn))
+	if lim.IsInt64() {
+		hi = lim.Int64()
+	}
+	// log-uniform between lo and hi: most weight on hours to weeks
+	e := uint(r.Intn(bits.Len64(uint64(hi / lo)))) // 2^e <= hi/lo
+	base := lo << e
+	room := hi - base
+	if room > base {
+		room = base
+	}
+	d := base + r.Range(0, room)
+	return dn, d
 }
 
 func tsOfTime(sec, nsec int64) {
@@ -155,7 +228,7 @@ func genI64(r *lib.Rng) int64 {
 	case 3:
 		return r.Range(-10, 10) * 1000000000
 	case 4:
-		return int64(1)<<uint(r.Intn(63)) * lib.Pick(r, int64(1), -1) + r.Range(-2, 2)
+		return int64(1)<<uint(r.Intn(63))*lib.Pick(r, int64(1), -1) + r.Range(-2, 2)
 	default:
 		return r.I64()
 	}
@@ -192,6 +265,8 @@ func main() {
 				ppmRoundtrip(lib.ParseI(f[0]))
 			case "units.drift":
 				drift(lib.ParseI(f[0]), lib.ParseI(f[1]))
+			case "units.drift_add":
+				driftAdd(lib.ParseI(f[0]), lib.ParseI(f[1]), lib.ParseI(f[2]))
 			case "csptp.ts_of_time":
 				tsOfTime(lib.ParseI(f[0]), lib.ParseI(f[1]))
 			case "csptp.time_of_ts":
@@ -219,6 +294,12 @@ func main() {
 	for _, x := range []int64{-0x8000, -1, -65536, -65537, 65535, math.MinInt64, math.MaxInt64} {
 		interval(x)
 	}
+	for _, p := range [][2]int64{{500000, 6 * 3600e9}, {50000, 60 * 3600e9}, {500000, 0}, {1, 0}, {1, 1}, {999999999, 1}, {1, 999999999},
+		{10000, 1e9}, {10000, 64e9}, {1000000000, math.MaxInt64 / 2}, {4611686018, 1e18}, {math.MaxInt64, 1}, {math.MaxInt64, 500000000}} {
+		drift(p[0], p[1])
+	}
+	driftAdd(500000, 3*3600e9, 3*3600e9)
+	driftAdd(50000, 0, 60*3600e9)
 	for i := 0; i < n; i++ {
 		timeval(genI64(r))
 		interval(genI64(r))
@@ -273,6 +354,25 @@ func main() {
 				d = lib.Pick(r, int64(1000000000), 250000000, 64000000000, 1, 0, 999999999, 3600000000000)
 			}
 			drift(dn, d)
+			// drift x interval beyond int64 although the allowance itself is far from it
+			wdn, wd := genWrapPair(r)
+			drift(wdn, wd)
+			// monotone and additive over two intervals
+			switch r.Intn(4) {
+			case 0:
+				a := r.Range(0, wd)
+				driftAdd(wdn, a, wd-a)
+			case 1:
+				if dn > 0 && d >= 0 {
+					driftAdd(dn, d/2, d-d/2)
+				} else {
+					driftAdd(wdn, wd/3, wd/3+r.Range(0, 1))
+				}
+			case 2:
+				driftAdd(lib.Pick(r, int64(10000), 50000, 500000, 1, 999999999), r.Range(0, 5000000000), r.Range(0, 5000000000))
+			default:
+				driftAdd(r.Range(1, 1000000), r.Range(0, 1<<50), r.Range(0, 1<<50))
+			}
 		}
 		// csptp timestamps
 		{
